@@ -54,7 +54,7 @@ def run(R, tier):
     R.check(len(trailing) >= 2, "R10.2", "trailing-separator-exit", "the exit taken after a trailing `;` was analysed (%d paths)" % len(trailing), "no successful path for a message ending in `;`")
 
     # ---- R10.4 formatter impls --------------------------------------------------------------------------------
-    eng = D.engine(inline=lambda n, r: False)
+    eng = D.engine(inline=D.inline_inherent(("scpi::parser::response::ResponseUnit::",)))
     impls = u.impl_methods("parser::response::Formatter", "response_unit")
     R.floor("R10.4", "Formatter impls", len(impls), 2)
     for b in impls:
